@@ -101,12 +101,34 @@ SEARCH["cache_key"] = dict(
     theorems=["bridge_cache_key"], vars=[("ax", "Int", -300, 300), ("tang", "Int", -40, 40), ("tof", "Int", -12, 12)],
     gen="Gen.cache_key (ax * 1000003) (tang * 97) (tof * 40009)", model="C03.cacheKey ⟨0, 0, ax * 1000003, tang * 97, tof * 40009⟩",
     pre="decide ((ax * 1000003).natAbs < 2 ^ 28) && decide ((tang * 97).natAbs < 2 ^ 12) && decide ((tof * 40009).natAbs < 2 ^ 20)")
+# C02: address arithmetic.  A small family of layouts (segment sequences incl. a permuted one and one that misses a segment, 1 or 3 TOF bins,
+# per-segment axial ranges) x every bin in and just outside the ranges.
+_PDV = [("sq", "Choice", ["[0]", "[0, -1, 1]", "[1, 0, -1]", "[0, 1]"]), ("nt", "Choice", ["1", "3"]), ("nv", "Int", 1, 3), ("ng", "Int", 1, 3),
+        ("seg", "Int", -2, 2), ("view", "Int", -1, 3), ("ax", "Int", -1, 4), ("tang", "Int", -2, 2), ("tof", "Int", -2, 2)]
+_PDL = ["let l : C02.Layout := { segSeq := sq, tofSeq := if nt == 1 then [0] else [-1, 0, 1], minSeg := -1, maxSeg := 1, minAx := fun s => if s == 0 then 0 else 1, "
+        "numAx := fun s => if s == 0 then 3 else 2, minView := 0, numViews := nv, minTang := -(ng / 2), numTang := ng, minTof := -(nt / 2), maxTof := nt / 2, numTof := nt, "
+        "order := ord, elemSize := es, offset := 12, offset3d := 7 * nv * ng * es, checkView := true, checkTang := true }",
+        "let b : C02.Bin := ⟨seg, view, ax, tang, tof⟩"]
+_PDR = "decide (sq.length == 3) && decide (-1 ≤ seg) && decide (seg ≤ 1)"
+_PDA = "l.segSeq l.tofSeq l.minSeg l.maxSeg l.minAx l.maxAx l.numAx l.minView l.maxView l.numViews l.minTang l.maxTang l.numTang l.minTof l.maxTof l.numTof"
+SEARCH["get_index"] = dict(
+    theorems=["bridge_get_index"], vars=_PDV, lets=["let ord := C02.Order.savt", "let es : Int := 1"] + _PDL, real=_PDR,
+    gen="Gen.get_index %s l.offset3d seg view ax tang tof" % _PDA,
+    model="(match C02.getIndex l b with | .error e => ((match e with | .segRange => 1 | .axRange => 2 | .tofRange => 3 | .viewRange => 4 | .tangRange => 5 : Int), (0 : Int)) | .ok v => (0, v))")
+SEARCH["get_offset"] = dict(
+    theorems=["bridge_get_offset", "bridge_get_offset_unsupported"],
+    vars=[("oc", "Int", 0, 4), ("es", "Choice", ["4", "2"])] + _PDV,
+    lets=["let ord := if oc < 2 then C02.Order.savt else C02.Order.svat"] + _PDL, real=_PDR,
+    gen="Gen.get_offset %s oc es l.offset l.offset3d seg view ax tang tof" % _PDA,
+    model="(match C02.offsetOf l b with | .error e => ((match e with | .segRange => 1 | .axRange => 2 | .tofRange => 3 | .viewRange => 4 | .tangRange => 5 : Int), (0 : Int)) "
+          "| .ok v => if oc == 4 then (6, 0) else (0, v))")
+PD_KERNELS = ["get_index", "get_offset"]
 SO_KERNELS = [k for k in SEARCH if k.startswith("so_")] + ["cache_key"] + ["find_sym_op_bin0", "find_sym_op_general_bin"]
 GEN_DIR = ("StirVerif", "Gen")
 
 
 def _search_source(kernels):
-    out = ["import StirVerif.Gen.Kernels", "import StirVerif.C01.Model", "import StirVerif.C06.Model", "import StirVerif.C03.Model", "open StirVerif", "",
+    out = ["import StirVerif.Gen.Kernels", "import StirVerif.C01.Model", "import StirVerif.C06.Model", "import StirVerif.C03.Model", "import StirVerif.C02.Model", "open StirVerif", "",
            "/-- 0, 1, …, hi, then -1, -2, …, lo: realistic values first -/",
            "def rng (lo hi : Int) : List Int :=",
            "  ((List.range (hi + 1).toNat).map fun (k : Nat) => (k : Int)).filter (fun x => decide (lo ≤ x)) ++",
@@ -118,6 +140,8 @@ def _search_source(kernels):
         for v in sp["vars"]:
             if v[1] == "Int":
                 out.append(ind + "for %s in rng (%d) (%d) do" % (v[0], v[2], v[3]))
+            elif v[1] == "Choice":
+                out.append(ind + "for %s in ([%s] : List _) do" % (v[0], ", ".join(v[2])))
             else:
                 out.append(ind + "for %s in [false, true] do" % v[0])
             ind += "  "
@@ -162,7 +186,8 @@ def _lookup(regions, line):
 
 
 def _box(k):
-    return ", ".join("%s∈[%d..%d]" % (v[0], v[2], v[3]) if v[1] == "Int" else "%s∈Bool" % v[0] for v in SEARCH[k]["vars"])
+    return ", ".join("%s∈[%d..%d]" % (v[0], v[2], v[3]) if v[1] == "Int" else "%s∈{%s}" % (v[0], "; ".join(v[2])) if v[1] == "Choice"
+                     else "%s∈Bool" % v[0] for v in SEARCH[k]["vars"])
 
 
 def _def_text(kernels_path, name):
@@ -289,7 +314,7 @@ def _gate_locked(chk, report_for, vlib, c2lean, t0, text, report):
     found = {}
     search_out = ""
     if searchable:
-        okk, outk = vlib.lean_build(targets=("StirVerif.Gen.Kernels", "StirVerif.C01.Model", "StirVerif.C06.Model", "StirVerif.C03.Model"))
+        okk, outk = vlib.lean_build(targets=("StirVerif.Gen.Kernels", "StirVerif.C01.Model", "StirVerif.C06.Model", "StirVerif.C03.Model", "StirVerif.C02.Model"))
         if okk:
             sf = os.path.join(vlib.OUT, "GenSearch.lean")
             with open(sf, "w") as fh:
